@@ -74,6 +74,7 @@ fn worker_main(a: &[String]) -> i32 {
         return 64;
     }
     install_panic_hook();
+    enter_working_directory();
     let Some(p) = prop::by_id(&a[0]) else { return 64 };
     let p2 = prop::by_id(&a[0]).unwrap();
     let tier = parse_tier(&a[1]).unwrap();
@@ -443,6 +444,8 @@ fn truncate(s: &str, n: usize) -> String {
 
 fn replay_main(path: &str) -> i32 {
     install_panic_hook();
+    let path = &std::fs::canonicalize(path).map(|p| p.to_string_lossy().into_owned()).unwrap_or_else(|_| path.to_string());
+    enter_working_directory();
     let Ok(s) = std::fs::read_to_string(path) else {
         eprintln!("cannot read {path}");
         return 64;
